@@ -106,6 +106,7 @@ type Interp struct {
 	onCall func(cl *Closure, args []Value)
 	onRet  func(cl *Closure, args []Value, res []Value)
 	nilPanics bool
+	stepLimit int // when > 0: exceeding it is reported as non-termination (goPanic)
 	extVars   map[string]Value // package-level variables of other packages (identity, or a model value)
 	builders  map[*Ext]*strings.Builder
 	loopLabel   string // label attached to the loop/switch about to start
@@ -287,6 +288,14 @@ func (it *Interp) execBlock(stmts []ast.Stmt, env *Env) ctrl {
 
 func (it *Interp) exec(s ast.Stmt, env *Env) ctrl {
 	it.steps++
+	if it.stepLimit > 0 && it.steps > it.stepLimit {
+		// a small budget was set by the caller: the evaluated code loops on this input
+		pos := ""
+		if it.posOf != nil {
+			pos = it.posOf(s.Pos())
+		}
+		panic(goPanic{pos, fmt.Sprintf("no result after %d statements (the code does not terminate on this input)", it.stepLimit)})
+	}
 	if it.steps > 2_000_000 {
 		it.fail(s, "step limit exceeded")
 	}
